@@ -267,6 +267,8 @@ func checkC12(P *Program, r *Result, tier string) {
 		}
 		r.add("VERSION", shortName(fn), "fail", "a header without the strict-version marker is answered with the BAD_VERSION exception, before any further decoding", P.pos(fn.Pos()), ok, detail)
 	}
+	// a short header that lacks the marker is still answered with BAD_VERSION: the test needs 4 bytes only
+	versionFirstRule(P, r, newAnalysis(P))
 	// ---- EXC-BRANCH ----
 	um := P.Func(relThrift, "UnmarshalFastMsg")
 	mm := P.Func(relThrift, "MarshalFastMsg")
